@@ -12,7 +12,7 @@ Mirrors, call by call,
 * internal/controller/pkg/revision/dependency.go  PackageDependencyManager.Resolve / RemoveSelf
 
 Masterminds/semver and go-containerregistry are libraries, not repository code: their
-verdicts (constraint parses?, version parses to which numbers?, does the constraint admit
+verdicts (constraint parses?, version parses to which numbers?, does the constraint allow
 the version?, is the string a digest?) enter as an `Oracle`; every theorem is parametric in it.
 The *order* on parsed versions is modelled (and proved total and transitive) here.
 
@@ -50,16 +50,20 @@ def preLe : List Ident → List Ident → Bool
   | _ :: _, [] => false
   | a :: as, b :: bs => if a = b then preLe as bs else Ident.le a b
 
+/-- the pre-release part of `Compare`: no pre-release on either side is equality, a release
+is greater than any of its pre-releases, otherwise `comparePrerelease` -/
+def relLe : List Ident → List Ident → Bool
+  | [], [] => true
+  | [], _ :: _ => false
+  | _ :: _, [] => true
+  | a :: as, b :: bs => preLe (a :: as) (b :: bs)
+
 /-- `v.Compare(w) ≤ 0` -/
 def Ver.le (v w : Ver) : Bool :=
   if v.major ≠ w.major then decide (v.major < w.major)
   else if v.minor ≠ w.minor then decide (v.minor < w.minor)
   else if v.patch ≠ w.patch then decide (v.patch < w.patch)
-  else match v.pre, w.pre with
-    | [], [] => true
-    | [], _ :: _ => false      -- a release is greater than any of its pre-releases
-    | _ :: _, [] => true
-    | p, q => preLe p q
+  else relLe v.pre w.pre
 
 /-- `v.Compare(w) < 0` (`LessThan`) -/
 def Ver.lt (v w : Ver) : Bool := !(w.le v)
@@ -450,35 +454,53 @@ def removeSelf : List Pkg → String → List Pkg
   | [], _ => []
   | p :: ps, name => if p.name == name then ps else p :: removeSelf ps name
 
+/-- "same name, no (deprecated) type, other source": the lock entry of this revision from
+before it was moved to another repository. (`self.Type == lp.Type` compares pointers and
+self.Type is nil: true iff lp carries no type.) -/
+def movedEntry (self : Pkg) (lp : Pkg) : Bool :=
+  lp.name == self.name && !lp.typed && lp.source != self.source
+
+/-- the part of Resolve after the DAG `d` (with its implied nodes) has been built from the
+(possibly refreshed) lock contents `lock1` -/
+def resolveTail (o : Oracle) (upg : Bool) (self : Pkg) (lock1 : List Pkg) (d : Dag) (implied : List Dep) : ResOut :=
+  let found : Int := self.deps.length
+  let prExists := lock1.any (fun lp => lp.name == self.name)
+  let lock2 := if prExists then lock1 else lock1 ++ [self]
+  let d2 := if prExists then d else addOrUpdate upg d (pkgNode self)
+  let installed0 : Int := if prExists then 0 else (self.deps.filter (fun e => d2.has e.pkg)).length
+  if !prExists && installed0 ≠ found then ⟨found, installed0, 0, .missingDirect, lock2⟩
+  else
+    match trace d2 self.source with
+    | .error _ => ⟨found, installed0, 0, .traceMissing, lock2⟩
+    | .ok tree =>
+      let found' : Int := tree.length
+      let missing := implied.filter (fun i => tree.contains i.pkg)
+      let installed' : Int := found' - missing.length
+      if missing.length ≠ 0 then ⟨found', installed', 0, .missingDeps, lock2⟩
+      else
+        match checkDeps o d2 self.deps 0 with
+        | .error e => ⟨found', installed', 0, e, lock2⟩
+        | .ok k => ⟨found', installed', k, if k > 0 then .incompatible else .none, lock2⟩
+
 /-- Resolve for an active revision whose source parsed (`self.source`, `self.version`) and
 whose meta dependencies are all well-formed (`self.deps`). The client calls cannot fail here
-(the property quantifies over inputs, not faults). -/
-def resolve (o : Oracle) (upg : Bool) (lock : List Pkg) (self : Pkg) : ResOut :=
-  let found : Int := self.deps.length
+(the property quantifies over inputs, not faults).
+
+`reinit = true` is the code with fixes/D12.diff: after RemoveSelf + re-reading the lock the
+DAG is rebuilt from the refreshed lock. `reinit = false` is the code before that repair, which
+kept the DAG (and the implied list) built from the lock *before* the removal. -/
+def resolveG (reinit : Bool) (o : Oracle) (upg : Bool) (lock : List Pkg) (self : Pkg) : ResOut :=
   match init o upg lock with
-  | .error _ => ⟨found, 0, 0, .initDag, lock⟩
-  | .ok (d, implied) =>
-    -- same name, same (deprecated) type, other source: RemoveSelf, re-read the lock; the DAG is kept
-    -- (`self.Type == lp.Type` compares pointers and self.Type is nil: true iff lp carries no type)
-    let lock1 := if lock.any (fun lp => lp.name == self.name && !lp.typed && lp.source != self.source)
-                 then removeSelf lock self.name else lock
-    let prExists := lock1.any (fun lp => lp.name == self.name)
-    let lock2 := if prExists then lock1 else lock1 ++ [self]
-    let d2 := if prExists then d else addOrUpdate upg d (pkgNode self)
-    let installed0 : Int := if prExists then 0 else (self.deps.filter (fun e => d2.has e.pkg)).length
-    if !prExists && installed0 ≠ found then ⟨found, installed0, 0, .missingDirect, lock2⟩
-    else
-      match trace d2 self.source with
-      | .error _ => ⟨found, installed0, 0, .traceMissing, lock2⟩
-      | .ok tree =>
-        let found' : Int := tree.length
-        let missing := implied.filter (fun i => tree.contains i.pkg)
-        let installed' : Int := found' - missing.length
-        if missing.length ≠ 0 then ⟨found', installed', 0, .missingDeps, lock2⟩
-        else
-          match checkDeps o d2 self.deps 0 with
-          | .error e => ⟨found', installed', 0, e, lock2⟩
-          | .ok k => ⟨found', installed', k, if k > 0 then .incompatible else .none, lock2⟩
+  | .error _ => ⟨self.deps.length, 0, 0, .initDag, lock⟩
+  | .ok (d0, implied0) =>
+    let moved := lock.any (movedEntry self)
+    let lock1 := if moved then removeSelf lock self.name else lock
+    match (if moved && reinit then init o upg lock1 else .ok (d0, implied0)) with
+    | .error _ => ⟨self.deps.length, 0, 0, .initDag, lock1⟩
+    | .ok (d, implied) => resolveTail o upg self lock1 d implied
+
+/-- Resolve as repaired by fixes/D12.diff -/
+def resolve (o : Oracle) (upg : Bool) (lock : List Pkg) (self : Pkg) : ResOut := resolveG true o upg lock self
 
 /-! ## Lock reconciler (resolver/reconciler.go), decision skeleton -/
 
@@ -526,8 +548,9 @@ def reconcile (o : Oracle) (upg down : Bool) (lock : List Pkg) (order : List Str
         | none =>
           match toInstall o dep.con (fetch depId) with
           | .error e => ⟨.nothing, .findInstall e, some false⟩
-          | .ok "" => ⟨.nothing, .noVersion, some false⟩
-          | .ok v => ⟨.create depId v, .none, some true⟩
+          | .ok v =>
+            if v = "" then ⟨.nothing, .noVersion, some false⟩
+            else ⟨.create depId v, .none, some true⟩
         | some ins =>
           let parents := ((d.get depId).map (·.parents)).getD []
           match toUpdate o parents ins down (fetch depId) with
@@ -553,6 +576,21 @@ def HasCycle (nb : String → Option (List String)) : Prop := ∃ c, Reach nb c 
 
 /-- every neighbour of a node of the DAG is itself a node of the DAG -/
 def Closed (nb : String → Option (List String)) : Prop := ∀ n m, Edge nb n m → (nb m).isSome = true
+
+/-- the lock is well-formed with respect to the revision `self` being resolved: revision names
+are unique; an entry recorded under `self`'s source is `self`'s own entry (same revision name,
+same dependencies as its meta: revision names are content hashes and entries are written by
+Resolve from the meta); entries named like `self` do not use the deprecated `type` field -/
+structure LockWF (lock : List Pkg) (rev : Pkg) : Prop where
+  names : (lock.map (·.name)).Nodup
+  own : ∀ p ∈ lock, p.source = rev.source → p.name = rev.name ∧ p.deps = rev.deps
+  untyped : ∀ p ∈ lock, p.name = rev.name → p.typed = false
+
+/-- the version found in the lock for a dependency is what its constraint asks for:
+the pinned digest, or a semantic version admitted by the (parsable) constraint -/
+def VersionOk (o : Oracle) (e : Dep) (version : String) : Prop :=
+  (∃ dg, o.digest e.con = some dg ∧ version = dg) ∨
+  (o.digest e.con = none ∧ o.conOk e.con = true ∧ (o.ver version).isSome = true ∧ o.sat e.con version = true)
 
 /-- `res` lists dependencies first: whenever `u` occurs in it, every neighbour of `u` occurs strictly earlier -/
 def DepsFirst (nb : String → Option (List String)) (res : List String) : Prop :=
